@@ -17,6 +17,7 @@ ENTRIES = [(H.HYP, q) for q in (
 
 
 def run(ctx):
+    ctx.do(MI.rule_homdiv1)
     ctx.do(H.rule_x1x2)
     ctx.do(S.rule_sh2, only={"short_arc", "right_to_left", "arc_include", "circle_angles", "sphere_through", "circle_through", "sphere_inversion", "kleinian_to_poincare", "poincare_to_halfspace", "Segment._compute_aux_data"})
     ctx.do(S.rule_ax1, [S.CORE, H.HYP], scope=ctx.scope(ENTRIES))
